@@ -15,8 +15,10 @@ Cases == JsonDeserialize(IOEnv.TRACE_FILE)
 VARIABLE i
 TInit == i = 1 /\ TLCSet(1, FALSE)
 TNext == /\ i <= Len(Cases) /\ i' = i + 1 /\ (i' > Len(Cases) => TLCSet(1, TRUE))
-IsWorld(c) == c.fam # "prog"
-Fails(c) == IF IsWorld(c) THEN WorldFails(c) ELSE CaseFails(c)
+IsWorld(c) == c.fam \in {"dag", "gen"}
+(* fam = "uperr": an upstream module of a world (itself a reader of the earlier modules' stubs)   *)
+(* was analysed with errors, errs |-> [module |-> <<error names>>]                                *)
+Fails(c) == IF IsWorld(c) THEN WorldFails(c) ELSE IF c.fam = "uperr" THEN ErrFails(c) ELSE CaseFails(c)
 Exp(c) == IF IsWorld(c) THEN [j \in DOMAIN c.reads |-> PathType(c.decls, c.reads[j])] ELSE <<>>
 Judged(c) == {j \in DOMAIN c.reads : PathType(c.decls, c.reads[j])[1] \notin {"unknown", "any"}}
 Ok == i <= Len(Cases) =>
